@@ -1,7 +1,8 @@
 //! C09: relative placement through `layout21tetris::placer::Placer::place`.
 //!
 //! Case (JSON):
-//!   cells:  [ null | {"x":[..],"y":[..]} ]           cell k is named "c{k}"; null = a Cell without any view
+//!   cells:  [ null | {"x":[..],"y":[..]} ]           cell k is named "c{k}"; null = a Cell without any view;
+//!            optional "abs":{"x":[..],"y":[..]} = an abstract view with its own outline as well ("layout":false: abstract only)
 //!   nodes:  [ NODE ]                                  the pool of placeables; node id = index = pointer identity
 //!   runs:   [ {"instances":[ids], "places":[ids]} ]   each run builds a FRESH library (same pool, other listing);
 //!            optional per run: "wrap":n (n cells above the parent, each instantiating the one below), "sibling":"before"|"after",
@@ -178,7 +179,18 @@ fn one_run(case: &Value, run: &Value) -> Value {
         } else {
             let xs: Vec<isize> = c["x"].as_array().unwrap().iter().map(|v| v.as_i64().unwrap() as isize).collect();
             let ys: Vec<isize> = c["y"].as_array().unwrap().iter().map(|v| v.as_i64().unwrap() as isize).collect();
-            Cell::from(Layout::new(name, 0, Outline::new(&xs, &ys).expect("harness: bad outline")))
+            let mut cell = Cell::from(Layout::new(name.clone(), 0, Outline::new(&xs, &ys).expect("harness: bad outline")));
+            // optional second view: an abstract with an outline of its own (`Cell::outline()` prefers the abstract; nothing validates
+            // that the two agree). "layout": false drops the layout view (abstract-only cell).
+            if let Some(a) = c.get("abs") {
+                let ax: Vec<isize> = a["x"].as_array().unwrap().iter().map(|v| v.as_i64().unwrap() as isize).collect();
+                let ay: Vec<isize> = a["y"].as_array().unwrap().iter().map(|v| v.as_i64().unwrap() as isize).collect();
+                cell.add_view(layout21tetris::abs::Abstract::new(name, 0, Outline::new(&ax, &ay).expect("harness: bad abstract outline")));
+                if c["layout"].as_bool() == Some(false) {
+                    cell.layout = None;
+                }
+            }
+            cell
         };
         cells.push(lib.cells.add(cell));
     }
